@@ -58,7 +58,13 @@ func ParseNum(s string) Num {
 		return NormalizeBigInt(z)
 	}
 	// Try parsing as float64
-	if f, err := strconv.ParseFloat(s, 64); err == nil {
+	f, err := strconv.ParseFloat(s, 64)
+	if err == nil {
+		return f
+	}
+	if numErr, ok := err.(*strconv.NumError); ok && numErr.Err == strconv.ErrRange {
+		// The literal is well-formed but beyond the float64 range; its
+		// correctly rounded value is +Inf or -Inf.
 		return f
 	}
 	return nil
